@@ -50,6 +50,7 @@ func (ctx *Ctx) GenVC(fc *FuncContract) (res *FuncResult) {
 	}
 	vc := NewVC(ctx, fn, fc, res.FullName)
 	vc.nosafe = fc.NoSafe
+	vc.nosafeKinds = fc.NoSafeKinds
 	res.VC = vc
 	fr := vc.newFrame(fn, fc, "", 0, nil)
 	vc.rootFr = fr
